@@ -535,7 +535,11 @@ def run(ctx):
     for inst, v in sorted(H2.sites.items()):
         if inst in ('qmail_close:success-only-for-exit0+no-failure', 'qmail_close:crash->Z'):
             r2.check(v[0], inst, v[1], v[2], v[3])
-    r2.expect_min(4)
+    ls_, _ = C07.latch_sites(db, rep, prog)
+    for inst, v in sorted(ls_.items()):
+        if inst.startswith('qmail_from:') or inst.startswith('qmail_fail:'):
+            r2.check(v[0], 'latch:' + inst, v[1], v[2], v[3])
+    r2.expect_min(5)
 
     r5 = rep.rule('C14.5-recipient-named-without-the-virtual-prefix', 'R-TABLE', 'stripvdomprepend() over 12 recipients and five kinds of virtualdomains entries: the prefix the routing rule prepended is removed, nothing is removed from addresses the rule did not touch (exception entries end the search), and no byte beyond the recipient is read')
     for inst, v in sorted(strip_sites(db, rep, prog).items()):
